@@ -140,6 +140,14 @@ Definition pp_forward (c : cfg) (t p : Z) (st : pp) (m : msg) (stamp : Z * Z) (l
        | (LFail e, _) => (st, pre ++ [EErr m e])
        end.
 
+(* the guard in front of a new retry level: updateLeader when there is no broker worker *)
+Definition pp_guard (c : cfg) (t p : Z) (st : pp) (ls : list lres) : (pp * list effect * list lres) + Z :=
+  if p_has_bp st then inl (st, [], ls)
+  else match next_lres ls with
+       | (LOk b, ls') => inl (mkPp (p_hwm st) (p_levels st) true b, leader_effects c t p b, ls')
+       | (LFail e, _) => inr e
+       end.
+
 (* one iteration of the loop of partitionProducer.dispatch.
    ab: what the abandoned-channel poll of the current broker worker returns;
    stamp: what getAndIncrementSequenceNumber would return; ls: leader lookup results, in call order *)
@@ -149,13 +157,18 @@ Definition pp_step (c : cfg) (t p : Z) (st : pp) (m : msg) (ab : bool) (stamp : 
   let e1 := if p_has_bp st && ab then [EUnref] else [] in
   let r := m_retries m in
   if (p_hwm st1 <? r)%nat then
-    (* newHighWatermark(r) *)
-    if (c_retry_max c <? r)%nat then (st1, e1 ++ [ECrash CR_LEVEL])
-    else if negb (p_has_bp st1) then (st1, e1 ++ [ECrash CR_NIL_BP])
-    else
-      let fin := marker c t p F_FIN (r - 1)%nat in
-      let st2 := mkPp r (set_chaser r true (p_levels st1)) false (p_leader st1) in
-      pp_forward c t p st2 m stamp ls (e1 ++ [ENew fin; ESend DCur fin; EUnref])
+    (* fixes/c01_newhwm_nil_broker_producer.patch: a new level sends its fin through the current broker worker,
+       so one is obtained first; a failed lookup fails the message *)
+    match pp_guard c t p st1 ls with
+    | inr e => (st1, e1 ++ [EErr m e])
+    | inl (stg, eg, ls1) =>
+      (* newHighWatermark(r) *)
+      if (c_retry_max c <? r)%nat then (stg, e1 ++ eg ++ [ECrash CR_LEVEL])
+      else
+        let fin := marker c t p F_FIN (r - 1)%nat in
+        let st2 := mkPp r (set_chaser r true (p_levels stg)) false (p_leader stg) in
+        pp_forward c t p st2 m stamp ls1 (e1 ++ eg ++ [ENew fin; ESend DCur fin; EUnref])
+    end
   else if (0 <? p_hwm st1)%nat then
     if (r <? p_hwm st1)%nat then
       if (length (p_levels st1) <=? r)%nat then (st1, e1 ++ [ECrash CR_LEVEL])   (* retryState[msg.retries]: index out of range *)
